@@ -218,6 +218,25 @@ func (w *netWorld) runSrv(c *netCase, res *netResult) error {
 		w.mu.Lock()
 		w.fwd = nil
 		w.mu.Unlock()
+		if q.Direct {
+			// what rpc GetBlocks does: the range goes to the blockchain module unchecked
+			msg := w.cli.NewMessage("blockchain", types.EventGetBlocks, &types.ReqBlocks{Start: q.S, End: q.E})
+			o := srvObs{Class: "eof"}
+			if err := w.cli.Send(msg, true); err != nil {
+				return err
+			}
+			if reply, err := w.cli.WaitTimeout(msg, 3*time.Second); err == nil {
+				if bd, ok := reply.Data.(*types.BlockDetails); ok {
+					o.Class = "blocks"
+					for _, it := range bd.Items {
+						o.Hs = append(o.Hs, it.GetBlock().GetHeight())
+					}
+				}
+			}
+			res.Srv = append(res.Srv, o)
+			netSay("P", res)
+			continue
+		}
 		proto := protoDlNew
 		if q.Old {
 			proto = protoDlOld
